@@ -123,8 +123,10 @@ def run_impl(P, requests, layout=None):
     if P.get("as_polynomial") and all(any(n[a] > 0 for n in H) for a in range(P["k"])):
         # the same series as ONE SymPy matrix, polynomial in the perturbation symbols: the code Taylor-expands it
         syms = list(sympy.symbols("t0:%d" % P["k"], real=True))
-        H = sum((sympy.Mul(*[s_ ** e for s_, e in zip(syms, n)]) * m for n, m in H.items()), sympy.zeros(P["d"], P["d"]))
-        Ht, U, Ud = block_diagonalize(H, symbols=syms, subspace_indices=idx, fully_diagonalize=P["fd_py"], hermitian=P["hermitian"])
+        Hp = sum((sympy.Mul(*[s_ ** e for s_, e in zip(syms, n)]) * m for n, m in H.items()), sympy.zeros(P["d"], P["d"]))
+        if not set(syms) <= Hp.free_symbols: syms = None        # a term that vanishes identically took its symbol with it: keep the dict form
+    if syms is not None:
+        Ht, U, Ud = block_diagonalize(Hp, symbols=syms, subspace_indices=idx, fully_diagonalize=P["fd_py"], hermitian=P["hermitian"])
     else:
         Ht, U, Ud = block_diagonalize(H, subspace_indices=idx, fully_diagonalize=P["fd_py"], hermitian=P["hermitian"])
     S = {"H_tilde": Ht, "U": U, "U†": Ud}
